@@ -2,6 +2,11 @@
 
 package generator
 
+// C13 (determinism): every function below belongs to it - its effect clause (no random, clock or environment
+// effect beyond the declared ones), frame, call preconditions and loop invariants are proved for every iteration
+// order of every map it ranges over.
+//@ fileprops C13
+
 // Contracts for the deductive verifier in /verif (govc).  This file contains comments only;
 // it is compiled only with -tags verif and declares nothing.
 
@@ -39,7 +44,7 @@ package generator
 //@
 //@ func AssignmentToString(f, a) (r)
 //@   requires model.wfAssign(a)
-//@   ensures {C07,C01,C02} r == guarded(*f, a)
+//@   ensures {C07,C01,C02,C05} r == guarded(*f, a)
 //@   reveal guarded
 //@   loop 1 invariant $k <= len(nest.Contents) && sb.String() == cond(nest.NullCheckExpr != "", "if " + nest.NullCheckExpr + " != nil {\n", "") + cond(nest.InitExpr != "", nest.InitExpr + "\n", "") + guardedContents(*f, nest.Contents, $k)
 
@@ -77,7 +82,7 @@ package generator
 //@ func (*Generator).FuncToString(g, f) (r)
 //@   requires model.wfContents(f.Assignments)
 //@   split f.DstVarStyle == model.DstVarArg, f.DstVarStyle == model.DstVarReturn, f.Receiver == "", f.RetError, f.Dst.Pointer, f.PreProcess == nil, f.PostProcess == nil
-//@   ensures {C08,C10,C07,C02,C01,C03,C11,C17,C13} r == funcText(*f)
+//@   ensures {C08,C10,C07,C02,C01,C03,C11,C17,C13,C05} r == funcText(*f)
 //@   reveal funcText
 //@   loop 1 invariant sb.String() == docLines(f.Comments, $k) && $k <= len(f.Comments)
 //@   loop 2 invariant $k <= len(f.AdditionalArgs)
@@ -121,6 +126,12 @@ package generator
 //@   ensures {C18} err == nil && output ==> $out.n == old($out.n) + 1 && $out.data[old($out.n)] == string(r) + "\n"
 //@   ensures {C18} err == nil && !output ==> $out.n == old($out.n)
 //@   ensures {C01,C15} err != nil ==> r == nil
+// goimports resolves missing imports relative to the directory of the file name it is given (sibling files,
+// nearest candidate package): the name must be the output path itself, whatever the working directory (C13), and
+// what is optimised, formatted and written is the generated content (C01, C12).
+//@   atcall Process: {C13,C01,C12} $arg0 == outPath && $arg1 == content && $arg2 == nil
+//@   atcall Source: {C13,C01,C12} $arg0 == optimized
+//@   atcall WriteFile: {C12,C15,C01} $arg0 == outPath && $arg1 == formatted
 //@
 //@ func NewGenerator(code) (g)
 //@   ensures {C15,C18} fresh(g) && g.code == code
